@@ -135,7 +135,7 @@ def readHead (d : Bytes) : PyRes (HeadFields × Bytes) := do
   pure (⟨leDec bLen, leDec bSo, byteVal bInv, byteVal bPerm, permData, byteVal bFuse, uuid⟩, d)
 
 /-- `AhabCertificate.parse(data)`; `.ok none` = a second key set follows (not modelled).
-    (As in the source, the declared length of a single-signature certificate is not compared with the computed one.) -/
+    The declared length is compared with signature offset + signature container. -/
 def parseCert (ko : KeyOracle) (d : Bytes) : PyRes (Option Cert) :=
   if !headOk headSize AhabConsts.certificateTag AhabConsts.certificateVersion d then .error .spsdk else
   match readHead d with
@@ -148,8 +148,11 @@ def parseCert (ko : KeyOracle) (d : Bytes) : PyRes (Option Cert) :=
       if headSize + kl < h.sigOffset then .ok none else
       match parseSigContainer (d.drop h.sigOffset) with
       | .error e => .error e
-      | .ok s => .ok (some { length := h.length, sigOffset := h.sigOffset, permissions := h.perm, permData := h.permData,
-                             fuseVersion := h.fuse, uuid := h.uuid, key0 := rest.take kl, sig0 := s })
+      | .ok s =>
+        -- the declared length must be signature offset + signature container
+        if h.length ≠ h.sigOffset + sigContainerLen s then .error .spsdk else
+        .ok (some { length := h.length, sigOffset := h.sigOffset, permissions := h.perm, permData := h.permData,
+                    fuseVersion := h.fuse, uuid := h.uuid, key0 := rest.take kl, sig0 := s })
 
 /-! ### the credential wrapper -/
 
@@ -166,9 +169,8 @@ def wrap (c : Cert) : PyRes Cert :=
   if c.permData.length < 12 then .error .other     -- struct.error in the `socu` / `beacon` getters
   else
     let arg : Option Nat :=
-      if DatConsts.v2CtorSoccExpr == "unpack('<L', certificate.permission_data[:4])[0] if len(certificate.permission_data) >= 4 else 0"
-      then some (permSocc c.permData)
-      else if DatConsts.v2CtorSoccExpr == "0" then some 0 else none
+      if DatConsts.v2CtorKeepsSocc then some (permSocc c.permData)
+      else if DatConsts.v2CtorZeroesSocc then some 0 else none
     match arg with
     | none => .error .other
     | some a => .ok { c with permData := permPack a (permSocu (c.permData.take 12)) (permBeacon (c.permData.take 12)) }
